@@ -370,7 +370,7 @@ func genC29(g *Gen) {
 		align := g.Intn(2)
 		rt := 2
 		shapes := "="
-		tags = append(tags, fmt.Sprintf("ncol:%d", bucket(ncol)), fmt.Sprintf("nrow:%d", bucket(nrow)), fmt.Sprintf("align:%d", align))
+		tags = append(tags, fmt.Sprintf("ncol:%d", sizeBucket(ncol)), fmt.Sprintf("nrow:%d", sizeBucket(nrow)), fmt.Sprintf("align:%d", align))
 		if epochPos != 0 {
 			tags = append(tags, "epoch_not_first")
 		}
@@ -390,7 +390,7 @@ func genC29(g *Gen) {
 	genC29Malformed(g)
 }
 
-func bucket(n int) int {
+func sizeBucket(n int) int {
 	switch {
 	case n <= 3:
 		return n
